@@ -118,9 +118,6 @@ func c16Prepare(c *Ctx) (files map[string]string, entries []Entry, err error) {
 	perCheck := map[string]int{}
 	for _, d := range diags {
 		for fi, sf := range d.SuggestedFixes {
-			if _, skip := c16NotEquivalent[d.Category]; skip {
-				continue
-			}
 			if len(sf.TextEdits) == 0 {
 				continue
 			}
@@ -247,6 +244,9 @@ func c16Prepare(c *Ctx) (files map[string]string, entries []Entry, err error) {
 				applicability("%s in %s: the fixed function does not type-check: %s", f.Check, fn, detail)
 				continue
 			}
+			if _, notEq := c16NotEquivalent[f.Check]; notEq {
+				continue // applies cleanly; behaviour is not claimed to be preserved
+			}
 			fsb.WriteString(f.Text + "\n\n")
 			variants = append(variants, f.Name)
 		}
@@ -281,7 +281,7 @@ func init() {
 			Level: "translation_validation",
 			Assumptions: []string{
 				"programs: the corpus /verif/corpus/fixc (trigger shapes of the S1xxx/QF1xxx checks with operands of every relational operator, negations, mixed && / ||, calls with side effects); fixes come from the real analyzers, run natively on every run",
-				"behavioural clause only for checks whose fix is an equivalent rewrite (QF1009 excluded); position clauses (line/column exist) are not covered",
+				"behavioural clause only for checks whose fix is an equivalent rewrite (QF1009: only the applies-cleanly clauses); position clauses (line/column exist) are not covered",
 				"parameters named n, m, k, i are loop bounds restricted to -1..4; slices have length <= 2",
 			},
 		}
